@@ -2,6 +2,8 @@ import JSight.ValidateNProofs
 import JSight.ValidateTProofs
 import JSight.ValidateRProofs
 import JSight.ValidateAProofs
+import JSight.ValidateKProofs
+import JSight.AllOfProofs
 import JSight.Dfs
 import JSight.PinnedTree
 /-!
@@ -17,9 +19,10 @@ Models (all executable, the last one is what the driver runs against the real `V
   user type).
 Spec: `shape` by recursion on the *document* — a position accepts the union of its alternatives
 (`(alts env s).any …`), an object decides every key the example does not name by `additionalProperties`.
+* `VK.validateT` — + key shortcuts `@K: v` (declaration-order matching, one document key per shortcut,
+  fix F-15): the richest model, the one the driver's `semk` command runs.
 `or` rules are the same union through anonymous types; `allOf` is a compile-time expansion
-(`AO.compileAll`, validated against the code, DESIGN.md §4). Key shortcuts: model `VK` validated only
-(`C03_shortcuts` is not yet a theorem — stated in DESIGN.md as partial).
+(`AO.compileAll`, compared with the code by `sem-allof`; `C03_allOf_expand` says what it produces).
 No bound on depth, width, number of types or cycle structure.
 -/
 namespace Props.C03
@@ -46,6 +49,23 @@ theorem C03_alts_iff_reach {L : Type} (env : VR.Env L) (s a : VR.S L) : a ∈ VR
 /-- + additionalProperties: decides every key the example does not name -/
 theorem C03_additional_properties {L D : Type} (env : VA.Env L) (litOK : L → D → Bool) (s : VA.S L) (d : VN.J D) :
     VA.validateT env litOK s d = VA.shape env litOK s d := VA.C03_additional_properties env litOK s d
+
+/-- + key shortcuts: an unknown key takes the first unused shortcut whose key type accepts it, then
+additionalProperties; required shortcuts must be met -/
+theorem C03_key_shortcuts {L D : Type} (env : VK.Env L) (litOK : L → D → Bool) (keyOK : String → String → Bool)
+    (s : VK.S L) (d : VN.J D) : VK.validateT env litOK keyOK s d = VK.shape env litOK keyOK s d :=
+  VK.C03_key_shortcuts env litOK keyOK s d
+
+/-- allOf is a compile-time expansion: the expanded object has its own properties followed by the properties
+of the (already expanded, hence transitively complete) base types in `allOf` order; every base is an object.
+With the validator theorems above: an object with allOf accepts exactly the objects meeting its own and all
+transitively inherited property requirements -/
+theorem C03_allOf_expand {L : Type} [DecidableEq L] (env : AO.PEnv L) (fuel : Nat) (proc : List String)
+    (props : List (String × Bool × AO.PS L)) (add : VA.AddMode L) (allOf : List String) (s : VA.S L)
+    (h : AO.compileNode env fuel proc (.obj props add allOf) = .ok s) :
+    ∃ bases own add', AO.compileTypes env fuel proc allOf = .ok bases ∧ AO.compileProps env fuel proc props = .ok own ∧
+      (∀ b ∈ bases, AO.isObj b = true) ∧ s = .obj (own ++ bases.flatMap AO.propsOf) add' :=
+  AO.C03_allOf_expand env fuel proc props add allOf s h
 
 /-- the pre-fix tree (parent entered into `leaves` once per finishing child) violates the property:
 `[@A | @B, "s", 1]`, `@A = 1.5`, `@B = 2.5` accepts `[1, 1]` (fixed by F-11; kept as regression witness) -/
